@@ -97,6 +97,7 @@ def case_strategy(draw, allow_rle=False):
     if rle is not None:
         case["rle"] = rle
         del case["pred"], case["ref"]
+    case["primes"] = draw(st.lists(st.sampled_from(sorted(lib.PRIMES)), min_size=0, max_size=2)) if draw(st.integers(0, 2)) == 0 else []
     return case
 
 
@@ -166,6 +167,7 @@ def resolve(case):
 
 
 def check(case, stats):
+    lib.run_primes(case.get("primes"))
     pred, ref, cfg = resolve(case)
     exps, complete, info = PM.expected_results(pred, ref, cfg)
     cands = info["cands"]
@@ -173,6 +175,8 @@ def check(case, stats):
     classes = [f"input={cfg['input']}", f"ndim={ref.ndim}"]
     if "rle" in case:
         classes.append("long_1d_runs" + (">65535" if ref.size > 65535 else ""))
+    if case.get("primes"):
+        classes.append("primed_with_other_objects")
     if cfg.get("matcher"):
         classes.append(f"mmetric={cfg['matcher']['metric']}")
         thr = cfg["matcher"]["thr"]
